@@ -184,6 +184,7 @@ func init() {
 		Funcs: []string{
 			`^\(\*tds\.Channel\)\.(sendPacket|sendPackets|QueuePackage|SendRemainingPackets|SendPackage|Reset)$`,
 			`^\(tds\.Packet\)\.(Bytes|WriteTo)$`, `^\(tds\.PacketHeader\)\.(Read|WriteTo)$`, `^tds\.(NewPacket|NewPacketHeader)$`,
+			`^\(\*tds\.PacketQueue\)\.(DiscardUntilCurrentPosition|Reset)$`, `^tds\.NewPacketQueue$`,
 			`^\(tds\.\w+Package\)\.WriteTo$`, `^\(\*tds\.(DynamicPackage|LanguagePackage|RowFmtPackage)\)\.WriteTo$`,
 			`^\(tds\.(fieldFmt\w+|fieldData\w*|EnvChangePackageField)\)\.(WriteTo|writeTo\w*)$`,
 		},
